@@ -100,9 +100,11 @@ def norm_idx(n, v, default):
 
 # ---------------------------------------------------------------------------- C01 / C15
 
-def check_render(x, prop='C01'):
-    """every rendering, read by the terminal, shows base_str with the reported effective styles"""
+def check_render(x, prop='C01', via=None):
+    """every rendering, read by the terminal, shows base_str with the reported effective styles
+    (`via`: an AnsiStr wrapping the same value -- its renderings are the ones read)"""
     bad = []
+    obj = x if via is None else via
     if '\x1b' in x._s:
         return bad
     a = acts(x)
@@ -112,7 +114,7 @@ def check_render(x, prop='C01'):
     want = [(c, eff(texts(ac))) for c, ac in zip(x._s, a)]
     shown0 = None
     for (o, rs, re_) in FLAGS:
-        r = x.to_str(None, o, rs, re_)
+        r = obj.to_str(None, o, rs, re_)
         for t0 in ({}, {'BOLDNESS': (1,), 'FG_COLOR': (38, 5, 9), 'FONT_TYPE': (12,)}):
             if t0 and not rs:
                 continue
@@ -124,8 +126,8 @@ def check_render(x, prop='C01'):
                 bad.append((prop, 'reset_end_default', 'flags=%s out=%r' % ((o, rs, re_), r)))
         if rs and not (r.startswith('\x1b[m') or r.startswith('\x1b[0;') or r.startswith('\x1b[0m')):
             bad.append((prop, 'reset_start_begins', 'flags=%s out=%r' % ((o, rs, re_), r)))
-    if x.__str__() != x.to_str() or format(x) != x.to_str() or x.__format__('') != x.to_str():
-        bad.append((prop, 'str_eq', repr(x.to_str())))
+    if obj.__str__() != obj.to_str() or format(obj) != obj.to_str() or obj.__format__('') != obj.to_str() or ('%s' % obj) != obj.to_str():
+        bad.append((prop, 'str_eq', repr(obj.to_str())))
     return bad
 
 def check_valid_render(x):
